@@ -428,6 +428,9 @@ type expectation struct {
 	PkgShapes []string
 	// ImportGenerations (exclude-only filters): see importGenerations. Coverage counter only.
 	ImportGenerations int
+	// DroppedMemberOpts (custom options retained): member kind -> custom options set on a member that
+	// is dropped with its excluded type (see droppedMemberOpts).
+	DroppedMemberOpts map[string][]string
 	// ContentFiles (exclude-only filters): files reached without the known-extension step.
 	ContentFiles map[string]bool
 	L, U         *bounds
@@ -723,23 +726,37 @@ func (m *imageModel) run(fc *filterCase, xc map[string]bool, upper bool) *bounds
 		b.Present[n] = true
 	}
 	b.core = [3]int{len(w.full), len(w.ns), len(w.files)}
-	if len(fc.Include) == 0 {
-		// Exclude-only: whatever is not excluded in a kept file stays. For import files the
-		// implementation keeps unreferenced content of a kept file as is; the model allows (upper)
-		// but does not demand (lower) it, and allows any import file to stay.
-		for _, f := range m.Files {
-			if !f.Import {
-				continue
-			}
-			if upper {
-				b.Files[f.Path] = true
-				for _, n := range f.All {
-					if !w.effExcl(n) {
-						b.Present[n] = true
-						b.Full[n] = true
-					}
+	if len(fc.Include) == 0 && upper {
+		// Exclude-only: whatever is not excluded in a kept file stays. An import file that is NEEDED
+		// (by kept target content, by the content of another kept import file, or as the home of a
+		// known extension of a kept message) is kept with all of its non-excluded content and with
+		// what that content needs, to a fixpoint; the model allows (upper) but does not demand
+		// (lower) the unreferenced part. An import file that nothing kept needs is not allowed:
+		// "If a file is no longer required, it will be removed from the image" (round 5; before, the
+		// upper bound let every import file stay, so an import file that only a dropped member's
+		// custom option needed could not be noticed under an exclude-only filter).
+		walked := map[string]bool{}
+		for {
+			var next []*fileM
+			for _, f := range m.Files {
+				if f.Import && w.files[f.Path] && !walked[f.Path] && !xc[f.Path] {
+					next = append(next, f)
 				}
 			}
+			if len(next) == 0 {
+				break
+			}
+			for _, f := range next {
+				walked[f.Path] = true
+				w.addFile(f)
+			}
+			w.knownExtensions()
+		}
+		for n := range w.full {
+			b.Present[n] = true
+		}
+		for n := range w.ns {
+			b.Present[n] = true
 		}
 	}
 	return b
@@ -850,5 +867,72 @@ func (m *imageModel) expect(fc *filterCase) *expectation {
 		sort.Strings(methods)
 		ex.RPCTrigger = methods[0]
 	}
+	if !fc.NoCustom {
+		ex.DroppedMemberOpts = m.droppedMemberOpts(ex, probe)
+	}
 	return ex
+}
+
+// droppedMemberOpts lists, per kind of member, the custom options (extension names) that are set on
+// a member of a kept element which is dropped because a type it cannot exist without is excluded: a
+// plain field, a map field (the entry cannot exist without its value type), a oneof whose members
+// are all dropped, an extension whose type is excluded, a method whose request/response type is
+// excluded. A dropped member needs nothing; its options count only if something else uses them.
+// The Any payloads of the option values are listed next to the option definitions.
+func (m *imageModel) droppedMemberOpts(ex *expectation, probe *walker) map[string][]string {
+	out := map[string][]string{}
+	note := func(kind string, us []optUse) {
+		for _, u := range us {
+			out[kind] = appendUnique(out[kind], u.Ext)
+			out[kind] = appendUnique(out[kind], u.Any...)
+		}
+	}
+	for n, e := range m.El {
+		if ex.Xc[n] || probe.effExcl(n) {
+			continue
+		}
+		switch e.Kind {
+		case kMsg:
+			if !ex.U.Full[n] {
+				continue
+			}
+			gone := make([]int, len(e.OneofOpts))
+			size := make([]int, len(e.OneofOpts))
+			for _, f := range e.Fields {
+				if f.Oneof >= 0 && f.Oneof < len(size) {
+					size[f.Oneof]++
+				}
+				if f.Type == "" || !probe.effExcl(f.Type) {
+					continue
+				}
+				if f.Oneof >= 0 && f.Oneof < len(gone) {
+					gone[f.Oneof]++
+				}
+				kind := "plain-field"
+				if te := m.El[f.Type]; te != nil && te.MapEntry && !ex.Xc[f.Type] {
+					kind = "map-field-message-value"
+					for _, ef := range te.Fields {
+						if ef.Type != "" && ex.Xc[ef.Type] && m.El[ef.Type] != nil && m.El[ef.Type].Kind == kEnum {
+							kind = "map-field-enum-value"
+						}
+					}
+				}
+				note(kind, f.Opts)
+			}
+			for i, o := range e.OneofOpts {
+				if size[i] > 0 && gone[i] == size[i] {
+					note("oneof", o)
+				}
+			}
+		case kExt:
+			if ex.U.Full[e.Extendee] && !probe.effExcl(e.Extendee) && e.Type != "" && probe.effExcl(e.Type) {
+				note("extension", e.Opts)
+			}
+		case kMethod:
+			if ex.U.Full[e.Parent] && (probe.effExcl(e.In) || probe.effExcl(e.Out)) {
+				note("method", e.Opts)
+			}
+		}
+	}
+	return out
 }
